@@ -156,6 +156,9 @@ def c06(tier, seed):
     r = run_engine(dbg, "crash", 1000000, seed, {"stage": "product"}, build_name="dbg", timeout_case=60)
     product = r.extra.get("product_size")
     res.absorb(r)
+    rp = run_engine(build("rel"), "crash", 1000000, seed, {"stage": "pressure"}, build_name="rel", timeout_case=120)
+    pressure = rp.extra.get("pressure_size")
+    res.absorb(rp)
     if tier == "quick":
         res.absorb(run_engine(dbg, "crash", n(20000), seed, {"stage": "random"}, build_name="dbg", timeout_case=30))
     else:
@@ -165,8 +168,9 @@ def c06(tier, seed):
         res.absorb(run_engine(dbg, "crash", n(60000), seed + 5, {"stage": "random"}, build_name="dbg", timeout_case=30))
     triage(res)
     res.extra["product_size"] = product
+    res.extra["pressure_size"] = pressure
     return finish("C06", tier, seed, "exploration", res,
-                  "stage product (enumerated completely on every run): 8 routes by which a value whose type is only known at run time reaches a position {parameter, array element, pop() result, function with mixed return types, variable reassigned to another type, uninitialised variable later assigned, index of a literal, no route (literal)} x ~230 positions {each of the 10 binary operators x lhs/rhs/both x other operand of each type, not, unary minus, if/jasi condition, index base/value, indexed-assignment base/value, receiver of each of 33 methods with correct/too few/too many arguments, typed method arguments, global built-ins, process builder arguments, interpolation, array literal, user call} x 7 run-time types {number, string, boolean, null, array, process_command, process_result}, plus forward calls before a captured variable is declared, loop control in a function defined inside a loop, and functions that fall off the end; each program goes through the checker and only accepted ones run; a panic/abort/signal of the worker is a violation. Stage random: generated programs with 1-3 sub-expressions replaced by a value of another run-time type behind `[v][0]`. Non-trivial = accepted by the checker and the marker `shout(\"before\")` placed immediately before the probed position was printed; distinct = hash of the source text",
+                  "stage product (enumerated completely on every run): 8 routes by which a value whose type is only known at run time reaches a position {parameter, array element, pop() result, function with mixed return types, variable reassigned to another type, uninitialised variable later assigned, index of a literal, no route (literal)} x ~230 positions {each of the 10 binary operators x lhs/rhs/both x other operand of each type, not, unary minus, if/jasi condition, index base/value, indexed-assignment base/value, receiver of each of 33 methods with correct/too few/too many arguments, typed method arguments, global built-ins, process builder arguments, interpolation, array literal, user call} x 7 run-time types {number, string, boolean, null, array, process_command, process_result}, plus forward calls before a captured variable is declared, loop control in a function defined inside a loop, and functions that fall off the end; each program goes through the checker and only accepted ones run; a panic/abort/signal of the worker is a violation. Stage pressure (enumerated completely): per string-pool size class (largest and smallest size of the class, plus one size above the largest class) x 3 release patterns, a program that keeps more strings of that class alive than the class has slots, releases them all (indexed overwrite / pop / churn of one variable in a function) and fills the class again; no crash, and exactly the strings the program built. Stage random: generated programs with 1-3 sub-expressions replaced by a value of another run-time type behind `[v][0]`. Non-trivial = accepted by the checker and the marker `shout(\"before\")` placed immediately before the probed position was printed; distinct = hash of the source text",
                   ["allocation-failure aborts and watchdog kills are resource outcomes (inconclusive), not crashes",
                    "a panic is attributed by message (digits normalised) and enclosing function of the panic location"],
                   min_nontrivial=500, exhaustive=True)
@@ -250,12 +254,15 @@ def c07(tier, seed):
     rr = run_engine(dbg, "front", 1000000, seed, {"stage": "R"}, build_name="dbg", timeout_case=30, stall_is="failure", alloc_failure_is="failure")
     stage_r = rr.extra.get("stage_r_size")
     res.absorb(rr)
+    rs = run_engine(dbg, "front", 1000000, seed, {"stage": "S"}, build_name="dbg", timeout_case=30, stall_is="failure", alloc_failure_is="failure")
+    stage_s = rs.extra.get("stage_s_size")
+    res.absorb(rs)
     if tier == "quick":
-        plan = [(dbg, "dbg", "B", 12), (dbg, "dbg", "C", 700), (dbg, "dbg", "D", 350)]
+        plan = [(dbg, "dbg", "B", 12), (dbg, "dbg", "C", 700), (dbg, "dbg", "D", 350), (dbg, "dbg", "M", 1500)]
     else:
         asan = build("asan")
-        plan = [(dbg, "dbg", "B", 500), (dbg, "dbg", "C", 40000), (dbg, "dbg", "D", 20000),
-                (asan, "asan", "A", 1000000), (asan, "asan", "B", 300), (asan, "asan", "C", 20000), (asan, "asan", "D", 10000)]
+        plan = [(dbg, "dbg", "B", 500), (dbg, "dbg", "C", 40000), (dbg, "dbg", "D", 20000), (dbg, "dbg", "M", 60000),
+                (asan, "asan", "A", 1000000), (asan, "asan", "S", 1000000), (asan, "asan", "B", 300), (asan, "asan", "C", 20000), (asan, "asan", "D", 10000), (asan, "asan", "M", 20000)]
     for (binary, name, stage, cnt) in plan:
         c = cnt if cnt >= 1000000 else n(cnt)
         res.absorb(run_engine(binary, "front", c, seed, {"stage": stage}, build_name=name, timeout_case=30, stall_is="failure", alloc_failure_is="failure"))
@@ -264,8 +271,9 @@ def c07(tier, seed):
     triage(res)
     res.extra["stage_a_size"] = stage_a
     res.extra["stage_r_size"] = stage_r
+    res.extra["stage_s_size"] = stage_s
     return finish("C07", tier, seed, "exploration", res,
-                  "inputs: (A) adjacency matrix enumerated completely: ~95 token texts (every keyword incl. multi-word keywords and their proper prefixes, identifiers, number forms `1.` `1.x` `1x`, strings in both quote styles with every escape / invalid escape / trailing back-slash / unterminated / brace forms, punctuation, comments, unexpected characters) x 22 neighbours (blank, TAB, LF, CR, CRLF, FF, letter, digit, `_`, `.`, quotes, 2/3/4-byte characters, U+0085, U+00A0, NUL, `#`, back-slash) x {before, after, both, at every interior character boundary} x 4 hosts; (R) ~5 000 small programs whose function return types depend on their own inferred types (every operator/method shape around a self call, a mutual call and a call chain, literals of every type on the other side), enumerated completely: the checker's return-type inference must terminate on all of them; (B) every prefix and every single-character deletion of generated valid programs; (C) 1-4 token-level mutations (delete, duplicate, swap, insert junk/multi-byte, replace) of valid programs; (D) random concatenations of tokens and junk. Oracle per input: lex+parse (+ static check after a clean parse, as shipped) must return without panic/abort/signal/sanitizer report; every diagnostic span and label span must satisfy start <= end <= len with both ends on character boundaries; the set must render with render_ansi to valid UTF-8; a worker making no progress for 30 s fails the case (typical input: 50 us), and so does exhausting the 256 MiB arenas on these tiny inputs. Non-trivial = produced at least one diagnostic or contains a multi-byte character; distinct = hash of the text",
+                  "inputs: (A) adjacency matrix enumerated completely: ~95 token texts (every keyword incl. multi-word keywords and their proper prefixes, identifiers, number forms `1.` `1.x` `1x`, strings in both quote styles with every escape / invalid escape / trailing back-slash / unterminated / brace forms, punctuation, comments, unexpected characters) x 22 neighbours (blank, TAB, LF, CR, CRLF, FF, letter, digit, `_`, `.`, quotes, 2/3/4-byte characters, U+0085, U+00A0, NUL, `#`, back-slash) x {before, after, both, at every interior character boundary} x 4 hosts; (R) ~5 000 small programs whose function return types depend on their own inferred types (every operator/method shape around a self call, a mutual call and a call chain, literals of every type on the other side), enumerated completely: the checker's return-type inference must terminate on all of them; (S) every text of the C09 matrix and size families (each documented static rule violated once, in 16 nesting contexts and at sizes 1..14; ~2 500 texts), enumerated completely: the ill-formed but parseable programs are what reaches the checker's error paths; (M) statement-level mutations of generated valid programs (a statement - function definitions with their bodies included - duplicated, deleted, swapped with another or moved into another block, 1-3 times), which stay parseable but lose, double or reorder declarations; (B) every prefix and every single-character deletion of generated valid programs; (C) 1-4 token-level mutations (delete, duplicate, swap, insert junk/multi-byte, replace) of valid programs; (D) random concatenations of tokens and junk. Oracle per input: lex+parse (+ static check after a clean parse, as shipped) must return without panic/abort/signal/sanitizer report; every diagnostic span and label span must satisfy start <= end <= len with both ends on character boundaries; the set must render with render_ansi to valid UTF-8; a worker making no progress for 30 s fails the case (typical input: 50 us), and so does exhausting the 256 MiB arenas on these tiny inputs. Non-trivial = produced at least one diagnostic or contains a multi-byte character; distinct = hash of the text",
                   ["inputs are at most ~1 KiB: larger inputs only multiply diagnostics (the renderer allocates O(len) per diagnostic, so huge garbage ends in arena exhaustion, a resource outcome)",
                    "the static checker is run only after a clean parse, which is how every shipped entry point wires it",
                    "the clause 'a text is only executed if it produced no error-level diagnostic' is decided through the CLI in C14"],
